@@ -29,13 +29,26 @@ POOL = 8
 N_FUNCS = 5
 
 
+class _IndexLike(object):
+    """Not a number, not an Integral: only usable as an index."""
+
+    def __init__(self, k):
+        self.k = k
+
+    def __index__(self):
+        return self.k
+
+    def __repr__(self):
+        return "IndexLike(%d)" % self.k
+
+
 def _mapped_value(fid, cx):
     """What mapped function `fid` returns for (canonical) input cx.  Function 4 is a look-up that finds nothing for
     about half of its inputs and says so the way Python functions do: it returns None - a value like any other."""
     if fid == 4 and h64(repr(cx)) & 1:
         return None
     return ("f", fid, cx)
-FPS = [(25, 1), (30, 1), (30000, 1001), (24, 1), (15, 2), (12, 1)]
+FPS = [(25, 1), (30, 1), (30000, 1001), (24, 1), (15, 2), (12, 1), (25, 2), (15, 2)]
 
 
 class InjectedIOError(IOError):
@@ -70,7 +83,8 @@ class Lazy(Machine):
                        "depth_ge_4", "interleaved_videos", "truncated_read_raises", "mixed_video_instrumented",
                        "read_folder_backed", "caller_list_mutated_after_use", "fancy_one_shot_iterable", "partial_iteration",
                        "video_with_large_frames", "equal_but_different_plain_values",
-                       "two_overlapping_iterations_of_one_list", "relative_glob_then_working_directory_changes")
+                       "two_overlapping_iterations_of_one_list", "relative_glob_then_working_directory_changes",
+                       "index_like_object", "augmented_add_after_adding_nothing", "longer_clip_with_fractional_frame_rate")
 
     @classmethod
     def swarm(cls, rng, tier):
@@ -87,7 +101,7 @@ class Lazy(Machine):
         kind = cfg["kind"]
         r = rng.random()
         if kind in ("video", "video_faulty") and r < 0.12:
-            return {"op": "new_video", "n": rng.randrange(0, 8), "fps": rng.randrange(6),
+            return {"op": "new_video", "n": rng.randrange(0, 8), "fps": rng.randrange(8),
                     "lm": rng.getrandbits(8), "norm": rng.randrange(2), "exact": rng.randrange(4),
                     "via": rng.randrange(3), "trunc": rng.randrange(12), "dst": rng.randrange(64)}
         if kind in ("video", "video_faulty") and r < 0.18:
@@ -556,6 +570,9 @@ class Lazy(Machine):
         idx = np.int64(kk) if op["np"] % 4 == 0 else (np.int32(kk) if op["np"] % 4 == 1 and False else kk)
         if op["np"] % 4 == 0:
             self.ctx.probe("numpy_index")
+        elif op["np"] % 4 == 3:
+            idx = _IndexLike(kk)        # anything with __index__ indexes an ordinary list (PEP 357)
+            self.ctx.probe("index_like_object")
         try:
             e = model[kk]
         except IndexError:
@@ -663,7 +680,17 @@ class Lazy(Machine):
         if b % 3 == 1:
             plain = self._twins(b, op["n"])
         self.caller_lists.append(plain)
-        new = self._nonreading("add_plain", lambda: ll + plain)
+        if b % 4 == 2:
+            # the accumulator idiom: start from "this list plus nothing", then grow with +=; as with ordinary lists
+            # the list one started from is not touched (checked, like every list, after the step)
+            def grow():
+                acc = ll + ([] if b % 8 == 2 else ll[0:0])
+                acc += plain
+                return acc
+            self.ctx.probe("augmented_add_after_adding_nothing")
+            new = self._nonreading("add_plain", grow)
+        else:
+            new = self._nonreading("add_plain", lambda: ll + plain)
         if new is not None:
             self._put(new, model + [("const", v) for v in list(plain)], op["dst"], "add(%s)" % self._prov[:40])
 
@@ -827,6 +854,12 @@ class Lazy(Machine):
         big = op["lm"] % 8 == 0     # one in eight videos has frames larger than any pipe / chunk buffer (66 kB each)
         if big:
             ctx.probe("video_with_large_frames")
+        elif den != 1 and n >= 2 and trunc is None and op["exact"] % 4 != 0:
+            # (only with the exact frame count of ffprobe: the ffmpeg-text fallback estimates the length from a rounded
+            # frame rate, inexact by its own documentation)
+            # a clip long enough for a seek to land on another frame if the frame rate were taken a few per cent off
+            n += 14
+            ctx.probe("longer_clip_with_fractional_frame_rate")
         spec = VideoSpec(vid, path, n, 110 if big else 2, 200 if big else 3, num, den, truncated_at=trunc)
         spec.lm_frames = {k for k in range(n) if (op["lm"] >> k) & 1}
         spec.lm_points = {}
